@@ -13,6 +13,8 @@ package main
 //   F <blocks>                    the synchronous schedule for that many blocks
 //   I <to>                        a new transaction into validator <to>'s mempool only
 //   P <to> <kind>                 a crafted PrepareRequest violating rule <kind> for backup <to> (probe.go)
+//   R <to> <kind>                 a validator-signed RecoveryMessage whose compact entry <kind> = cv|ps|cm-n|255 names
+//                                 a validator index outside the list (probe.go probeRecovery)
 
 import (
 	"fmt"
@@ -176,8 +178,26 @@ func lateValidator(n, victim int, tail string) script {
 	return script{name: fmt.Sprintf("late-validator-%d-of-%d", victim, n), n: n, steps: b.String()}
 }
 
+// recoveryIndex: one faulty validator per probe sends a RecoveryMessage with an out-of-range compact index;
+// nobody may die of it and the heights still complete.
+func recoveryIndex(n int) script {
+	return script{name: fmt.Sprintf("recovery-index-%d", n), n: n, steps: `
+R 0 cv-n
+R 0 cv-255
+R 2 ps-n
+R 2 ps-255
+R 3 cm-n
+R 3 cm-255
+F 1
+R 1 cm-n
+R 1 cv-255
+F 2
+`}
+}
+
 var corpus = []script{relabelledCommit, relabelledChecked, probesA, probesB, oversizedOnly,
-	lateValidator(4, 3, "D * * * *\nF 2\n"), lateValidator(7, 0, "D * * * *\nF 2\n")}
+	lateValidator(4, 3, "D * * * *\nF 2\n"), lateValidator(7, 0, "D * * * *\nF 2\n"),
+	recoveryIndex(4), recoveryIndex(7)}
 
 func match(pat, s string) bool { return pat == "*" || pat == s }
 
@@ -263,6 +283,13 @@ func (r *run) runScript(sc script) {
 				return
 			}
 			r.probe(i, w[2])
+		case "R":
+			i, err := strconv.Atoi(w[1])
+			if err != nil || i >= len(r.cl.nodes) || len(w) != 3 {
+				bad()
+				return
+			}
+			r.probeRecovery(i, w[2])
 		case "F":
 			k, err := strconv.Atoi(w[1])
 			if err != nil {
